@@ -292,15 +292,10 @@ func (s *kvGenState) readOp(slot string) {
 		case 3: // db.BytesPrefix(prefix) as the wallet builds its ranges
 			pre := s.usedKey()
 			if r.Intn(3) == 0 {
-				pre = []byte(pick(r, "\xff", "\xff\xff", "a\xff", "_", "1"))
+				pre = []byte(pick(r, "\xff", "\xff\xff", "a\xff", "_", "1", "", "\xff\xff\xff"))
 			}
-			start = pre
-			for i := len(pre) - 1; i >= 0; i-- {
-				if pre[i] < 0xff {
-					limit = append(append([]byte{}, pre[:i]...), pre[i]+1)
-					break
-				}
-			}
+			s.op("iterp"+cl, "iterp %s %s %s %s", slot, pt, hexTok(pre), s.iterScript())
+			return
 		case 4:
 			limit = s.usedKey()
 		default:
